@@ -37,6 +37,18 @@ def c17(pid, tier, seed, selftest=False):
     w17 = checks_cli.World(pid, tpl, seed)
     cfg17 = [{"cmd": "decrypt", "cause": "none", "prior": "absent", "inp": inp, "outp": outp, "kr": "opt", "long": lng, "alias": lng, "sender": snd}
              for snd in ("badsum", "last") for inp in ("file", "stdin") for outp in ("file", "stdout") for lng in (False, True)]
+    # keyrings of more than a megabyte: the entries used stand at the very end / the repeated name stands at the very end
+    for krsize in ("huge", "huge_aligned"):
+        for cmd in ("decrypt", "encrypt"):
+            cfg17.append({"cmd": cmd, "cause": "malformed_keyring", "prior": "absent", "inp": "file", "outp": "file", "kr": "opt" if cmd == "decrypt" else "env",
+                          "long": False, "alias": False, "sender": "first", "krsize": krsize})
+    for snd in ("last", "first", "badsum"):
+        for cmd in ("decrypt", "encrypt"):
+            if cmd == "encrypt" and snd == "badsum":
+                continue
+            # (for encrypt the contract has no sender position; alice_pos says where the entry with the sender's private key stands)
+            cfg17.append({"cmd": cmd, "cause": "none", "prior": "absent", "inp": "file", "outp": "file", "kr": "env" if snd == "first" else "opt",
+                          "long": True, "alias": False, "sender": snd if cmd == "decrypt" else "first", "alice_pos": snd, "krsize": "huge"})
     checks_cli.run_configs(rep, pid, "tool", w17, cfg17, ["C17_"])
     if rep.violations:
         # a violation seen at the tool stands on its own; the parser-level part below may not even build against such a tree
@@ -144,10 +156,14 @@ def c15(pid, tier, seed, selftest=False):
                 sc.append({"op": "lock", "id": "n%d.%d" % (k, n), "kind": "length", "k": k, "n": n})
         for n in range(8):
             sc.append({"op": "lock", "id": "a%d.%d" % (k, n), "kind": "alphabet", "k": k, "n": n})
+        # conforming strings whose blob ends in zero bytes, presented without them (padded and unpadded base64)
+        for kz in ((1, 2, 3) if thorough else (1, 2)):
+            for form in (0, 1, 2):
+                sc.append({"op": "lock", "id": "z%d.%d.%d" % (k, kz, form), "kind": "zero_tail", "k": k, "kz": kz, "form": form})
     kinds_model = sorted(set(c["kind"] for c in cases))
     rep.extra["model_case_kinds"] = kinds_model
     for s in sc:
-        rep.case(json.dumps(s, sort_keys=True), s["kind"] not in ("lock", "unlock_good"))
+        rep.case(json.dumps(s, sort_keys=True), s["kind"] not in ("lock", "unlock_good") and s.get("form") != 2)
     rep.sample(sc[0])
     rep.sample(sc[-1])
     run_oneshot(rep, pid, "lock", "kr", sc, tpl, seed, "Trace_Keyring", nproc=16, only_prefixes=["C15_"])
